@@ -47,6 +47,7 @@ type Config struct {
 	MaxSteps       int           // scheduling-point cap (livelock guard); 0 = 1e6
 	Horizon        time.Duration // virtual-time cap; 0 = 1h
 	Trace          bool          // record a human-readable trace
+	UnlockPoints   bool          // also a scheduling point AFTER every Mutex.Unlock: exposes code that touches guarded data after releasing the lock (not needed for data-race-free code: Unlock is a left-mover)
 }
 
 // Status of a finished execution.
